@@ -321,10 +321,16 @@ def generic_step(c, pkg, op, lens, sym_limits=True, ntape=6, callstack_sym=True)
         cs = (0, 128)
     contract = StubContract(c)
     contracts = SDict({b'C': contract})
-    defs = SDict({b'\x00': pkg.classes.Tape(b'\x00')})
+    def_tape = pkg.classes.Tape(b'\x00')
+    if name == 'OP_CALL':
+        # the called definition may itself be in the middle of a run (recursion): arbitrary position
+        def_tape.pointer = c.int('def_pointer', 0, 1)
+    defs = SDict({b'\x00': def_tape})
     st = mk_state(c, pkg, lens, tape_data, cache=generic_cache(c), sym_limits=sym_limits, callstack=cs,
                   contracts=contracts, definitions=defs)
     st.contract = contract
+    st.def_tape = def_tape
+    st.def_pointer = def_tape.pointer
     if name in STR_OPS:
         for it in st.items:
             for x in items_of(it):
@@ -412,7 +418,9 @@ def concrete_generic_step(inputs, params):
     tape = tapescript.Tape(inputs['tape'], callstack_count=inputs.get('callstack_count', 0),
                            callstack_limit=inputs.get('callstack_limit', 128))
     RF.set_tape_flags(tape)
-    tape.definitions = {b'\x00': tapescript.Tape(b'\x00')}
+    def_tape = tapescript.Tape(b'\x00')
+    def_tape.pointer = inputs.get('def_pointer', 0)
+    tape.definitions = {b'\x00': def_tape}
     allocs = []
     old_tb = RF.token_bytes
 
@@ -444,7 +452,8 @@ def concrete_generic_step(inputs, params):
         RF.token_bytes = old_tb
         RF.run_tape = old_rt
     return dict(r=r, stack=stack, tape=tape, cache=cache, pre_str=pre, allocs=allocs, max_items=mi, max_item_size=ms,
-                summ=summ, pre_count=pre_count, pre_flags=pre_flags)
+                summ=summ, pre_count=pre_count, pre_flags=pre_flags, def_tape=def_tape,
+                def_pointer=inputs.get('def_pointer', 0))
 
 
 def witness_observables(c, op, st, r, summ):
